@@ -212,6 +212,8 @@ def observe_sweep(cirq, t, rng):
             gets.append((i, dict_items(s[i])))
         except IndexError:
             gets.append((i, None))
+        except Exception as e:      # anything else is shown to the model as a value it can never produce
+            gets.append((i, [('!' + type(e).__name__, 0)]))
     slices = []
     for _ in range(4):
         sl = draw_slice(rng, n)
@@ -220,6 +222,8 @@ def observe_sweep(cirq, t, rng):
             slices.append((sl, [dict_items(r) for r in sub], type(sub).__name__))
         except ValueError:
             slices.append((sl, None, None))
+        except Exception as e:
+            slices.append((sl, [[('!' + type(e).__name__, 0)]], None))
     return dict(sweep=s, len=n, keys=[str(k) for k in s.keys], tuples=tuples, listed=listed, to_resolvers=via_to_resolvers,
                 gets=gets, slices=slices)
 
@@ -328,7 +332,11 @@ def sweep_stream(ctx, cirq, n):
             cases.append(t)
     rows, terms = [], []
     for t in cases:
-        obs = observe_sweep(cirq, t, rng)
+        try:
+            obs = observe_sweep(cirq, t, rng)
+        except Exception as e:      # a sweep the constructor accepted must support every observation
+            ctx.violation('sweep:raises:' + type(e).__name__, f'observing {sweep_term(t)} raised {type(e).__name__}: {e}', dict(kind='sweep', tree=t))
+            continue
         if obs is not None and obs['len'] > 400:
             continue
         rows.append((t, obs))
